@@ -66,7 +66,8 @@ type ringRun struct {
 	dead     int32
 	produced int64 // units handed to the ring by P (for stream offsets)
 	consumed int64
-	slice    []byte // result of the last WriteWait / ReadPeek / ReadWait
+	pslice   []byte // result of the last WriteWait
+	cslice   []byte // result of the last ReadPeek / ReadWait
 }
 
 var ringRuns sync.Map // buffer id -> *ringRun
@@ -192,14 +193,14 @@ func (r *ringRun) producer() {
 			r.ev["P"] <- ringEvent{site: "ret", ret: errRet(err), m: n / unitBytes}
 		case "WW":
 			b, wrap, err := r.bf.WriteWait(c.n * unitBytes)
-			r.slice = b
+			r.pslice = b
 			if err != nil {
 				r.ev["P"] <- ringEvent{site: "ret", ret: errRet(err)}
 			} else {
 				r.ev["P"] <- ringEvent{site: "ret", ret: "reserved", wrap: wrap, m: c.n}
 			}
 		case "WC":
-			fillStream(r.slice[:c.n*unitBytes], r.produced*unitBytes)
+			fillStream(r.pslice[:c.n*unitBytes], r.produced*unitBytes)
 			n, err := r.bf.WriteCommit(c.n * unitBytes)
 			if err == nil {
 				r.produced += int64(c.n)
@@ -236,7 +237,7 @@ func (r *ringRun) consumer() {
 			} else {
 				b, err = r.bf.ReadWait(c.n * unitBytes)
 			}
-			r.slice = b
+			r.cslice = b
 			if err != nil {
 				r.ev["C"] <- ringEvent{site: "ret", ret: errRet(err)}
 			} else {
@@ -245,7 +246,7 @@ func (r *ringRun) consumer() {
 			}
 		case "RC":
 			// the peeked bytes must still be intact when they are committed
-			bad := !checkStream(r.slice[:c.n*unitBytes], r.consumed*unitBytes)
+			bad := !checkStream(r.cslice[:c.n*unitBytes], r.consumed*unitBytes)
 			n, err := r.bf.ReadCommit(c.n * unitBytes)
 			if err == nil {
 				r.consumed += int64(c.n)
@@ -461,7 +462,11 @@ func cmdRingReplay(a Args) {
 			}
 		}
 		if d != "" {
-			res.mismatch(Mismatch{What: d, Replay: map[string]interface{}{"schedule": sc.H}})
+			tag := "C15"
+			if strings.Contains(d, "received bytes") || strings.Contains(d, "cursors (") || strings.Contains(d, "units") {
+				tag = "C14"
+			}
+			res.mismatch(Mismatch{What: d, Tag: tag, Replay: map[string]interface{}{"schedule": sc.H}})
 		}
 		if len(res.Samples) < 2 && len(sc.H) > 12 {
 			res.Samples = append(res.Samples, sc.H)
